@@ -166,7 +166,7 @@ package templ
 // configured error handler, or the default 500 response.
 //@ func (*ComponentHandler) ServeHTTPBuffered [C11]
 //@   requires ch != nil && r != nil
-//@   modifies tr(w), failedDuring, *cv()
+//@   modifies tr(w), failedDuring, *cv(), reach(r)
 //@   let D = buf.String() @ after ch.Component.Render#1
 //@   ensures implies(err == nil && ch.Status != 0, trExtends(tr(w), old(tr(w)), 3)
 //@       && tr(w)[len(old(tr(w)))] == evSet("Content-Type", ch.ContentType)
@@ -184,7 +184,7 @@ package templ
 // The documented contrast: the streaming handler commits headers and status first.
 //@ func (*ComponentHandler) ServeHTTPStreamed [C11]
 //@   requires ch != nil && r != nil
-//@   modifies tr(w), doc(w), failedDuring, *cv()
+//@   modifies tr(w), doc(w), failedDuring, *cv(), reach(r)
 //@   ensures len(tr(w)) >= len(old(tr(w))) + 1 && tr(w)[len(old(tr(w)))] == evSet("Content-Type", ch.ContentType)
 
 // ---------------------------------------------------------------------------
@@ -357,7 +357,7 @@ package templ
 // components never inline them.
 //@ func (CSSMiddleware) ServeHTTP [C12]
 //@   requires r != nil && r.URL != nil
-//@   modifies cv().ss, tr(w), failedDuring
+//@   modifies cv().ss, tr(w), failedDuring, reach(r)
 //@   loop 1 invariant monotone(old(cv().ss), v.ss) && forall(k, 0, iter, has(v.ss, cat("class_", cssm.CSSHandler.Classes[k].ID)))
 //@   assert before cssm.Next.ServeHTTP#1: forall(k, 0, len(cssm.CSSHandler.Classes), has(v.ss, cat("class_", cssm.CSSHandler.Classes[k].ID)))
 
